@@ -33,6 +33,7 @@ def run(ctx, chk):
     r3(ctx, chk)
     r4(ctx, chk)
     previous_locales_flag_rule(ctx, chk, "C13.R5")
+    locale_language_pairing_rule(ctx, chk, "C13.R6")
 
 
 def previous_locales_flag_rule(ctx, chk, rule):
@@ -312,3 +313,253 @@ def r3(ctx, chk):
     ok = "language_info.get('locale_specific', {}).get(shortname, {})" in t4 and _re.search(r"combine_dicts\(language_info, (\w+)\)", t4) is not None
     chk.ob(rule, "a Locale overlays the language data with locale_specific[shortname]", ok, "",
            key={"function": li.key, "construct": "locale overlay"}, file=li.file, function=li.qual, line=li.node.lineno)
+
+
+# ---------------------------------------------------------------------------------------------------------------------
+# R6: the locale name and the language whose data it is built from belong together
+
+_LOADER = "dateparser.languages.loader:"
+_ZIPS = {"zip", "zip_longest", "itertools.zip_longest", "itertools.zip"}
+_WRAPS = {"tuple", "list", "iter", "reversed"}      # element-for-element views (reversed of both sides keeps alignment only if both; see below)
+
+
+class _Shape:
+    """a list-valued expression abstracted as 'one element per element of `base`, in that order' (or a filtered subsequence)"""
+    def __init__(self, base, filtered, why=""):
+        self.base, self.filtered, self.why = base, filtered, why
+
+    def __repr__(self):
+        return "%s%s" % (self.base, " (filtered: %s)" % self.why if self.filtered else "")
+
+
+def _shape(ix, f, g, at, e, env, depth=0):
+    """shape of list expression `e` evaluated at CFG node `at` of function f (env: parameter -> shape, for callee summaries);
+    None when the expression is not one of the idioms understood"""
+    if depth > 6:
+        return None
+    if isinstance(e, ast.Name):
+        if e.id in env:
+            return env[e.id]
+        rd = g.reaching_defs(e.id).get(at, set())
+        opaque = _Shape(("var", f.key, e.id, tuple(sorted(rd))), False)
+        if rd and g.entry.id not in rd:
+            outs = []
+            for d in sorted(rd):
+                s = g.nodes[d].stmt
+                if isinstance(s, ast.Assign) and len(s.targets) == 1 and isinstance(s.targets[0], ast.Name):
+                    outs.append(_shape(ix, f, g, d, s.value, env, depth + 1))
+                else:
+                    outs.append(None)
+            sh = _join_shapes(outs)
+            if sh is not None:
+                return sh
+        return opaque           # the same binding(s) of the same variable: an unknown list, equal to itself
+    if isinstance(e, (ast.List, ast.Tuple)):
+        return _Shape(("literal", len(e.elts), ast.unparse(e)), False)
+    if isinstance(e, ast.ListComp) and len(e.generators) == 1:
+        gen = e.generators[0]
+        b = _shape(ix, f, g, at, gen.iter, env, depth + 1)
+        if b is None:
+            return None
+        return _Shape(b.base, b.filtered or bool(gen.ifs), b.why or ("comprehension condition `%s`" % ast.unparse(gen.ifs[0]) if gen.ifs else ""))
+    if isinstance(e, ast.Call):
+        fn = ast.unparse(e.func)
+        if fn in _WRAPS and len(e.args) == 1:
+            return _shape(ix, f, g, at, e.args[0], env, depth + 1)
+        if fn in _ZIPS:
+            parts = [_shape(ix, f, g, at, a, env, depth + 1) for a in e.args]
+            if any(p is None for p in parts):
+                return None
+            longest = fn.endswith("zip_longest")
+            real = [p for p in parts if not (p.base[0] == "literal" and p.base[1] == 0)]
+            if longest and len(real) == 1:
+                return real[0]              # zip_longest(xs, [], fillvalue=v): one tuple per element of xs
+            if len({p.base for p in parts}) == 1 and not any(p.filtered for p in parts):
+                return parts[0]
+            return None
+        tgt = ix.resolve_name_expr(f.module, e.func)
+        callee = tgt if tgt is not None and hasattr(tgt, "node") and isinstance(tgt.node, ast.FunctionDef) else None
+        if callee is None or e.keywords:
+            return None
+        params = [a.arg for a in callee.node.args.args]
+        if len(e.args) > len(params):
+            return None
+        cenv = {}
+        for p, a in zip(params, e.args):
+            sh = _shape(ix, f, g, at, a, env, depth + 1)
+            if sh is not None:
+                cenv[p] = sh
+        cg_ = CFG(callee.node)
+        outs = []
+        for s in iter_own_stmts(callee.node.body):
+            if isinstance(s, ast.Return) and s.value is not None:
+                nid = cg_.nodes_of(s)
+                outs.append(_shape(ix, callee, cg_, next(iter(nid)) if nid else cg_.entry.id, s.value, cenv, depth + 1))
+        return _join_shapes(outs)
+    return None
+
+
+def _join_shapes(outs):
+    if not outs or any(o is None for o in outs):
+        return None
+    if len({o.base for o in outs}) != 1:
+        return None
+    flt = [o for o in outs if o.filtered]
+    return _Shape(outs[0].base, bool(flt), flt[0].why if flt else "")
+
+
+def _flows_from(f, g, at, e, var, depth=0):
+    """does the value of expression e at node `at` derive from the binding of `var` that is live there (through calls, operators,
+    single assignments and loop targets)?"""
+    if depth > 8:
+        return False
+    for x in ast.walk(e):
+        if not isinstance(x, ast.Name):
+            continue
+        if x.id == var:
+            return True
+        for d in g.reaching_defs(x.id).get(at, set()):
+            if d == g.entry.id:
+                continue
+            n = g.nodes[d]
+            s = n.stmt
+            src = s.value if isinstance(s, (ast.Assign, ast.AugAssign, ast.AnnAssign)) else (s.iter if isinstance(s, ast.For) else None)
+            if src is not None and _flows_from(f, g, d, src, var, depth + 1):
+                return True
+    return False
+
+
+def locale_language_pairing_rule(ctx, chk, rule):
+    """`_load_data` first builds {locale name: (language, region)} and then loads, for each name, the data module of the paired language and
+    caches the Locale under the name process-wide.  A name paired with another language's code gives a 'fr-BE' that speaks Russian - for this call
+    and, through the cache, for every later one.  Every way a pair enters the mapping must therefore keep name and language together."""
+    ix = ctx.ix
+    f = ix.func(_LOADER + "LocaleDataLoader._load_data")
+    g = CFG(f.node)
+    # which local is the mapping: the one whose .items() the loading loop walks
+    loops = [n for n in iter_own_nodes(f.node) if isinstance(n, ast.For) and isinstance(n.iter, ast.Call)
+             and isinstance(n.iter.func, ast.Attribute) and n.iter.func.attr == "items" and isinstance(n.iter.func.value, ast.Name)
+             and any(isinstance(x, (ast.Yield, ast.YieldFrom)) for x in ast.walk(n))]
+    if len(loops) != 1:
+        raise AnalysisError(rule, "_load_data: the loop that loads and yields the locales was not found")
+    lp = loops[0]
+    mp = lp.iter.func.value.id
+    n_pairs = 0
+
+    def fail(node, what, why):
+        chk.ob(rule, what, False, why, key={"function": f.key, "construct": "pairing " + " ".join(ast.unparse(node).split())[:60]},
+               file=f.file, function=f.qual, line=node.lineno, text=" ".join(ast.unparse(node).split())[:120])
+
+    for s in iter_own_stmts(f.node.body):
+        at = next(iter(g.nodes_of(s)), None)
+        # (a) mapping[name] = value
+        if isinstance(s, ast.Assign) and len(s.targets) == 1 and isinstance(s.targets[0], ast.Subscript) \
+                and isinstance(s.targets[0].value, ast.Name) and s.targets[0].value.id == mp:
+            n_pairs += 1
+            key_e, val_e = s.targets[0].slice, s.value
+            what = "line %d: the pair stored for a locale name keeps the name and its language together" % s.lineno
+            if isinstance(key_e, ast.Name) and _flows_from(f, g, at, val_e, key_e.id):
+                chk.ob(rule, what, True, "", key={"function": f.key, "construct": "pairing store"}, file=f.file, function=f.qual, line=s.lineno)
+                continue        # the pair is computed from the name itself
+            lang_e = val_e.elts[0] if isinstance(val_e, ast.Tuple) and val_e.elts else None
+            if isinstance(lang_e, ast.Name) and _flows_from(f, g, at, key_e, lang_e.id) and _is_loop_var(f, lang_e.id):
+                chk.ob(rule, what, True, "", key={"function": f.key, "construct": "pairing store"}, file=f.file, function=f.qual, line=s.lineno)
+                continue        # the name is built from the very language it is paired with, in the same iteration
+            fail(s, what, "the stored pair is neither derived from the locale name nor is the name derived from the paired language variable")
+            continue
+        # (b) mapping.update(pairs) / mapping = OrderedDict(pairs)
+        if not isinstance(s, (ast.Assign, ast.Expr, ast.AugAssign, ast.AnnAssign, ast.Return)):
+            continue
+        calls = [c for c in ast.walk(s) if isinstance(c, ast.Call)]
+        for c in calls:
+            fn = ast.unparse(c.func)
+            is_upd = fn == mp + ".update"
+            is_new = fn.split(".")[-1] in ("OrderedDict", "dict") and isinstance(s, ast.Assign) and len(s.targets) == 1 \
+                and isinstance(s.targets[0], ast.Name) and s.targets[0].id == mp and c is s.value
+            if not (is_upd or is_new) or not c.args:
+                continue
+            src = c.args[0]
+            if isinstance(src, ast.Call) and ast.unparse(src.func) == "sorted" and src.args and ast.unparse(src.args[0]) == mp + ".items()":
+                continue        # re-ordering of the pairs already in the mapping
+            n_pairs += 1
+            what = "line %d: the pairs added to the locale mapping keep each name and its language together" % s.lineno
+            if isinstance(src, ast.Call) and ast.unparse(src.func) in _ZIPS and len(src.args) == 2:
+                a, b = (_shape(ix, f, g, at, x, {}) for x in src.args)
+                if a is None or b is None:
+                    raise AnalysisError(rule, "_load_data line %d: cannot follow how `%s` is built" % (s.lineno, ast.unparse(src.args[0 if a is None else 1])))
+                if a.base != b.base:
+                    raise AnalysisError(rule, "_load_data line %d: names come from %s, languages from %s" % (s.lineno, a, b))
+                bad = [x for x in (a, b) if x.filtered]
+                if bad:
+                    fail(s, what, "names and (language, region) pairs are matched by position, but `%s` drops elements (%s) while `%s` "
+                         "does not: every name after a dropped one is paired with an earlier language's data and cached under that name"
+                         % (ast.unparse(src.args[0 if bad[0] is a else 1]), bad[0].why, ast.unparse(src.args[1 if bad[0] is a else 0])[:60]))
+                else:
+                    chk.ob(rule, what, True, "", key={"function": f.key, "construct": "pairing zip"}, file=f.file, function=f.qual, line=s.lineno)
+                continue
+            if isinstance(src, (ast.GeneratorExp, ast.ListComp)) and isinstance(src.elt, ast.Tuple) and len(src.elt.elts) == 2:
+                k_e, v_e = src.elt.elts
+                loopvars = {x.id for gen in src.generators for x in ast.walk(gen.target) if isinstance(x, ast.Name)}
+                lang_e = v_e.elts[0] if isinstance(v_e, ast.Tuple) and v_e.elts else None
+                inner = {}
+                for gen in src.generators:          # name <- iterable built from the language variable of an outer generator
+                    for x in ast.walk(gen.target):
+                        if isinstance(x, ast.Name):
+                            inner[x.id] = {y.id for y in ast.walk(gen.iter) if isinstance(y, ast.Name)}
+                def derives(e_, var, seen=()):
+                    for y in ast.walk(e_):
+                        if isinstance(y, ast.Name):
+                            if y.id == var:
+                                return True
+                            if y.id in inner and y.id not in seen and any(z == var or derives(ast.Name(id=z), var, seen + (y.id,)) for z in inner[y.id]):
+                                return True
+                    return False
+                ok = isinstance(lang_e, ast.Name) and lang_e.id in loopvars and derives(k_e, lang_e.id)
+                ok = ok or any(isinstance(y, ast.Name) and y.id in loopvars and derives(v_e, y.id) for y in ast.walk(k_e) if isinstance(k_e, ast.Name))
+                if ok:
+                    chk.ob(rule, what, True, "", key={"function": f.key, "construct": "pairing comprehension"}, file=f.file, function=f.qual, line=s.lineno)
+                else:
+                    fail(s, what, "the name `%s` is not built from the language `%s` it is paired with" % (ast.unparse(k_e), ast.unparse(v_e)))
+                continue
+            raise AnalysisError(rule, "_load_data line %d: pairs enter the locale mapping in a way this rule does not know: %s" % (s.lineno, ast.unparse(src)[:80]))
+    chk.floor(rule + ".pairs", n_pairs, 2, "places where (locale name, language) pairs enter the mapping")
+    # consumer side: the data loaded for a name is the paired language's, cached under the name / the language
+    tg = lp.target
+    if not (isinstance(tg, ast.Tuple) and len(tg.elts) == 2 and all(isinstance(x, ast.Name) for x in tg.elts)):
+        raise AnalysisError(rule, "_load_data: loading loop target is not (name, pair)")
+    name_v, pair_v = tg.elts[0].id, tg.elts[1].id
+    unp = [s for s in ast.walk(lp) if isinstance(s, ast.Assign) and ast.unparse(s.value) == pair_v and isinstance(s.targets[0], ast.Tuple)]
+    lang_v = unp[0].targets[0].elts[0].id if unp and isinstance(unp[0].targets[0].elts[0], ast.Name) else None
+    chk.ob(rule, "the loading loop takes the language from the pair's first component", lang_v is not None, "no `lang, reg = pair`",
+           key={"function": f.key, "construct": "pair unpack"}, file=f.file, function=f.qual, line=lp.lineno)
+    ctor = [c for c in ast.walk(lp) if isinstance(c, ast.Call) and ast.unparse(c.func) == "Locale"]
+    chk.floor(rule + ".ctor", len(ctor), 1, "Locale constructions in the loading loop")
+    for c in ctor:
+        at = g.node_of_expr(f.node, c)
+        kw = {k.arg: k.value for k in c.keywords}
+        info = kw.get("language_info", c.args[1] if len(c.args) > 1 else None)
+        ok = bool(c.args) and ast.unparse(c.args[0]) == name_v and info is not None and lang_v is not None and _flows_from(f, g, at, info, lang_v)
+        chk.ob(rule, "line %d: the Locale for a name is built from the data of the paired language" % c.lineno, ok,
+               "Locale(%s, language_info=%s)" % (ast.unparse(c.args[0]) if c.args else None, ast.unparse(info)[:60] if info is not None else None),
+               key={"function": f.key, "construct": "Locale ctor " + ("cached" if "_loaded_languages" in ast.unparse(c) else "imported")},
+               file=f.file, function=f.qual, line=c.lineno)
+    imports = [c for c in ast.walk(lp) if isinstance(c, ast.Call) and ast.unparse(c.func) == "import_module"]
+    for c in imports:
+        ok = lang_v is not None and isinstance(c.args[0], ast.BinOp) and isinstance(c.args[0].right, ast.Name) and c.args[0].right.id == lang_v \
+            and isinstance(c.args[0].left, ast.Constant) and c.args[0].left.value == "dateparser.data.date_translation_data."
+        chk.ob(rule, "the data module imported is the paired language's", ok, ast.unparse(c.args[0])[:80],
+               key={"function": f.key, "construct": "import_module"}, file=f.file, function=f.qual, line=c.lineno)
+    chk.floor(rule + ".imports", len(imports), 1, "data module imports")
+    for s in ast.walk(lp):
+        if isinstance(s, ast.Assign) and isinstance(s.targets[0], ast.Subscript) and isinstance(s.targets[0].value, ast.Attribute):
+            attr = s.targets[0].value.attr
+            want = {"_loaded_locales": name_v, "_loaded_languages": lang_v}.get(attr)
+            if want is None:
+                continue
+            chk.ob(rule, "line %d: self.%s is keyed by the %s" % (s.lineno, attr, "locale name" if attr == "_loaded_locales" else "language"),
+                   ast.unparse(s.targets[0].slice) == want, "keyed by %s" % ast.unparse(s.targets[0].slice),
+                   key={"function": f.key, "construct": "cache key " + attr}, file=f.file, function=f.qual, line=s.lineno)
+
+
+def _is_loop_var(f, name):
+    return any(isinstance(n, ast.For) and any(isinstance(x, ast.Name) and x.id == name for x in ast.walk(n.target)) for n in iter_own_nodes(f.node))
